@@ -224,3 +224,24 @@ modelled! {
         std::mem::forget(decls); std::mem::forget(defs); std::mem::forget(report);
     }
 }
+
+
+// ---------------------------------------------------------------- C19-a addresses against the bank range (final pass)
+step! { int;
+    #[kani::unwind(2)]
+    #[kani::stub(customasm::util::BigInt::checked_sub, crate::model::st_sub)]
+    #[kani::stub(customasm::util::BigInt::checked_mul, crate::model::st_mul)]
+    fn c19_a_addr_bank_range() {
+        // final pass: an address is accepted iff (a - start) x unit lies inside the bank's size in bits
+        let v: i32 = kani::any();
+        let start: i16 = kani::any();
+        let k: usize = kani::any(); kani::assume(k < 5);
+        let unit = [1usize, 3, 8, 16, 32][k];
+        let size: Option<usize> = if kani::any() { let s: usize = kani::any(); kani::assume(s < (1usize << 40)); Some(s) } else { None };
+        pre_int(v as i64, None);
+        let (o, _) = addr_step(0, v as i64, start as i64, unit, size, v as i64, true);
+        kani::cover!(o.resolved && size.is_some(), "address inside a sized bank accepted");
+        kani::cover!(!o.ok && (v as i64) > start as i64, "address beyond the bank's size rejected");
+        kani::cover!(!o.ok && (v as i64) < start as i64, "address below the bank's start rejected");
+    }
+}
